@@ -14,6 +14,11 @@ import (
 func eNum(v string) J               { return J{"t": "num", "v": v} }
 func eNumSrc(v, src string) J       { return J{"t": "num", "v": v, "src": src} }
 func eStr(v string) J               { return J{"t": "str", "v": v} }
+
+// eStrSp: the same string VALUE, written in the source with escapes: sp = "x" (\xHH for U+0000..U+00FF that are not
+// plain ASCII letters/digits), "u" (\uHHHH for every character outside printable ASCII), "xa" (\xHH for EVERY character
+// below U+0100, letters included), "dq" (double quotes). Model and specification read "v"; only the real parser sees the spelling.
+func eStrSp(v, sp string) J { return J{"t": "str", "v": v, "sp": sp} }
 func eBool(v bool) J                { return J{"t": "bool", "v": v} }
 func eNull() J                      { return J{"t": "null"} }
 func eId(n string) J                { return J{"t": "id", "n": n} }
@@ -136,6 +141,34 @@ func jsQuote(s string) string {
 	return b.String()
 }
 
+func jsQuoteSp(s, sp string) string {
+	var b strings.Builder
+	q := byte('\'')
+	if sp == "dq" {
+		q = '"'
+	}
+	b.WriteByte(q)
+	for _, r := range s {
+		switch {
+		case r == rune(q) || r == '\\':
+			b.WriteByte('\\')
+			b.WriteRune(r)
+		case sp == "xa" && r < 0x100:
+			fmt.Fprintf(&b, `\x%02x`, r)
+		case sp == "x" && r < 0x100 && (r < 0x20 || r >= 0x7f):
+			fmt.Fprintf(&b, `\x%02X`, r)
+		case (sp == "u" || sp == "x" || sp == "xa") && (r < 0x20 || r >= 0x7f) && r < 0x10000:
+			fmt.Fprintf(&b, `\u%04x`, r)
+		case r < 0x20 || r == 0x2028 || r == 0x2029:
+			fmt.Fprintf(&b, `\u%04x`, r)
+		default:
+			b.WriteRune(r)
+		}
+	}
+	b.WriteByte(q)
+	return b.String()
+}
+
 func isIdent(s string) bool {
 	if s == "" {
 		return false
@@ -163,6 +196,9 @@ func printExpr(e J) string {
 		}
 		return e["v"].(string)
 	case "str":
+		if sp, ok := e["sp"].(string); ok {
+			return jsQuoteSp(e["v"].(string), sp)
+		}
 		return jsQuote(e["v"].(string))
 	case "bool":
 		if e["v"].(bool) {
